@@ -467,6 +467,12 @@ class top(exp):
         return float("inf")
 
 
+def _tdiv(a, b):
+    "integer division truncated toward zero (fixed-width signed division)"
+    q = abs(a) // abs(b)
+    return q if (a < 0) == (b < 0) else -q
+
+
 # -----------------------------------
 # cst holds numeric immediate values
 # -----------------------------------
@@ -590,28 +596,28 @@ class cst(exp):
     @_checkarg_numeric
     def __div__(self, n):
         if n._is_cst:
-            return cst(self.value // n.value, self.size)
+            return cst(_tdiv(self.value, n.value), self.size)
         else:
             return exp.__div__(self, n)
 
     @_checkarg_numeric
     def __truediv__(self, n):
         if n._is_cst:
-            return cst(self.value // n.value, self.size)
+            return cst(_tdiv(self.value, n.value), self.size)
         else:
             return exp.__truediv__(self, n)
 
     @_checkarg_numeric
     def __div__(self, n):
         if n._is_cst:
-            return cst(self.value // n.value, self.size)
+            return cst(_tdiv(self.value, n.value), self.size)
         else:
             return exp.__div__(self, n)
 
     @_checkarg_numeric
     def __mod__(self, n):
         if n._is_cst:
-            return cst(self.value % n.value, self.size)
+            return cst(self.value - n.value * _tdiv(self.value, n.value), self.size)
         else:
             return exp.__mod__(self, n)
 
